@@ -430,6 +430,8 @@ def numba_kernels(ctx):
     for tab in ("kernel_functions_regular", "kernel_functions_singular"):
         out.append("Definition numba_%s : list (string * string) :=\n  [%s]." % (
             tab, ";\n   ".join('("%s"%%string, "%s"%%string)' % kv for kv in tabs[tab].items())))
+    # select_numba_kernels(mode="potential") reads the kernel from the table named below (checked in selection_tables)
+    out.append("Definition numba_kernel_functions_potential : list (string * string) := numba_%s." % _modes["potential"])
     out.append("Definition numba_kernel_is_complex : list (string * bool) :=\n  [%s]." % ";\n   ".join(
         '("%s"%%string, %s)' % (k, "true" if v["complex"] else "false") for k, v in res["kernels"].items()))
     ff = [k for k in res["kernels"] if "far_field" in k]
@@ -582,4 +584,245 @@ def shapesets_py(ctx):
     out.append("  None.")
     out.append("Definition py_shapeset_names : list string := [%s]." % "; ".join('"%s"%%string' % i for i in sets))
     ctx.write_gen("Shapesets.v", "\n".join(out) + "\n")
+    return res
+
+
+# ---------------------------------------------------------------------------------------------------------------
+# Maxwell potential / far-field assemblers: the per-(evaluation point, quadrature point) integrand, complex arithmetic
+
+MAXWELL_FUNCS = ["maxwell_efield_potential", "maxwell_mfield_potential", "maxwell_efield_far_field",
+                 "maxwell_mfield_far_field"]
+MARGS = ["x0", "x1", "x2", "y0", "y1", "y2", "Gre", "Gim", "v0r", "v0i", "v1r", "v1i", "v2r", "v2i", "qr", "qi", "p0", "p1"]
+
+
+def _cadd(a, b):
+    return (["add", a[0], b[0]], ["add", a[1], b[1]])
+
+
+def _csub(a, b):
+    return (["sub", a[0], b[0]], ["sub", a[1], b[1]])
+
+
+def _cmul(a, b):
+    return (["sub", ["mul", a[0], b[0]], ["mul", a[1], b[1]]], ["add", ["mul", a[0], b[1]], ["mul", a[1], b[0]]])
+
+
+def _cdiv(a, b):
+    den = ["add", ["mul", b[0], b[0]], ["mul", b[1], b[1]]]
+    return (["div", ["add", ["mul", a[0], b[0]], ["mul", a[1], b[1]]], den],
+            ["div", ["sub", ["mul", a[1], b[0]], ["mul", a[0], b[1]]], den])
+
+
+def _real(e):
+    return (e, num(0))
+
+
+class _CExpr:
+    """Complex-valued expression of the Maxwell integrands over a fixed symbol table (fails closed)."""
+
+    def __init__(self, rel, fn, has_dist, vec_name, dim):
+        self.rel, self.fn, self.has_dist, self.vec_name, self.dim = rel, fn, has_dist, vec_name, dim
+        d = [["sub", var("x%d" % i), var("y%d" % i)] for i in range(3)]
+        self.d = d
+        self.r = ["fn", "sqrt", ["add", ["add", ["mul", d[0], d[0]], ["mul", d[1], d[1]]], ["mul", d[2], d[2]]]]
+        self.locals = {}
+
+    def fail(self, node, msg):
+        raise TieBroken("%s:%s (%s): %s" % (self.rel, getattr(node, "lineno", "?"), self.fn, msg))
+
+    def idx(self, node):
+        if isinstance(node, ast.Constant) and isinstance(node.value, int):
+            return node.value
+        if isinstance(node, ast.Name) and node.id == "dim" and self.dim is not None:
+            return self.dim
+        self.fail(node, "component index")
+
+    def ev(self, e):
+        """-> complex pair, or list of 3 complex pairs for vector values"""
+        if isinstance(e, ast.Constant):
+            if isinstance(e.value, complex) and e.value == 1j:
+                return (num(0), num(1))
+            if isinstance(e.value, (int, float)) and not isinstance(e.value, bool):
+                return _real(num(e.value))
+            self.fail(e, "constant")
+        if isinstance(e, ast.Name):
+            if e.id == "wavenumber":
+                return (var("p0"), var("p1"))
+            if e.id == "ldist" and self.has_dist:
+                return _real(self.r)
+            if e.id in self.locals:
+                return self.locals[e.id]
+            self.fail(e, "name %s" % e.id)
+        if isinstance(e, ast.Subscript) and isinstance(e.value, ast.Name):
+            n, sl = e.value.id, e.slice
+            els = list(sl.elts) if isinstance(sl, ast.Tuple) else [sl]
+            if n == "kernel_values" and ast.unparse(sl) == "trial_index":
+                return (var("Gre"), var("Gim"))
+            if n == "tmp2" and ast.unparse(sl) == "trial_index":
+                return (var("qr"), var("qi"))
+            if n == self.vec_name and len(els) == 2 and ast.unparse(els[1]) == "trial_index":
+                if ast.unparse(els[0]) == ":":
+                    return [(var("v%dr" % i), var("v%di" % i)) for i in range(3)]
+                i = self.idx(els[0])
+                return (var("v%dr" % i), var("v%di" % i))
+            if n == "diff" and self.has_dist and len(els) == 2 and ast.unparse(els[1]) == "trial_index":
+                return _real(self.d[self.idx(els[0])])
+            if n == "test_point" and len(els) == 1:
+                return _real(var("x%d" % self.idx(els[0])))
+            if n in self.locals and isinstance(self.locals[n], list) and len(els) == 1:
+                return self.locals[n][self.idx(els[0])]
+            self.fail(e, "subscript %s" % ast.unparse(e))
+        if isinstance(e, ast.UnaryOp) and isinstance(e.op, ast.USub):
+            v = self.ev(e.operand)
+            if isinstance(v, list):
+                self.fail(e, "negated vector")
+            return (["neg", v[0]], ["neg", v[1]])
+        if isinstance(e, ast.BinOp):
+            a, b = self.ev(e.left), self.ev(e.right)
+            op = {ast.Add: _cadd, ast.Sub: _csub, ast.Mult: _cmul, ast.Div: _cdiv}.get(type(e.op))
+            if op is None:
+                self.fail(e, "operator")
+            if isinstance(a, list) and isinstance(b, list):
+                self.fail(e, "vector-vector operation")
+            if isinstance(a, list):
+                return [op(c, b) for c in a]
+            if isinstance(b, list):
+                if op is _cdiv:
+                    self.fail(e, "division by a vector")
+                return [op(a, c) for c in b]
+            return op(a, b)
+        self.fail(e, "expression %s" % type(e).__name__)
+
+
+def _maxwell_one(rel, fn):
+    """-> list of 3 (re, im) IR pairs: the integrand components"""
+    if [a.arg for a in fn.args.args][10:12] != ["kernel_function", "kernel_parameters"]:
+        raise TieBroken("%s:%d: %s signature" % (rel, fn.lineno, fn.name))
+    body = [s for s in fn.body if not (isinstance(s, ast.Expr) and isinstance(s.value, ast.Constant))]
+    if not any(ast.unparse(s) == "wavenumber = kernel_parameters[0] + 1j * kernel_parameters[1]" for s in body):
+        raise TieBroken("%s:%d: %s does not define wavenumber = k[0] + 1j*k[1]" % (rel, fn.lineno, fn.name))
+    loops = [s for s in body if isinstance(s, ast.For) and ast.unparse(s.iter) == "_numba.prange(number_of_points)"]
+    if len(loops) != 1 or ast.unparse(loops[0].target) != "point_index":
+        raise TieBroken("%s:%d: %s: evaluation-point loop not found" % (rel, fn.lineno, fn.name))
+    stm = list(loops[0].body)
+    txt = [ast.unparse(s) for s in stm]
+    want = ["test_point = points[:, point_index].copy()",
+            "kernel_values = kernel_function(test_point, global_points, None, None, kernel_parameters)"]
+    if txt[:2] != want:
+        raise TieBroken("%s:%d: %s: loop prologue changed" % (rel, loops[0].lineno, fn.name))
+    stm, txt = stm[2:], txt[2:]
+    dist_block = ["diff = test_point.reshape(3, 1) - global_points",
+                  "dist = _np.zeros(number_of_quad_points * n_support_elements, dtype=dtype)",
+                  "for dim in range(3):\n    for index in range(number_of_quad_points * n_support_elements):\n"
+                  "        dist[index] += diff[dim, index] * diff[dim, index]",
+                  "dist = _np.sqrt(dist)"]
+    has_dist = txt[:4] == dist_block
+    if has_dist:
+        stm, txt = stm[4:], txt[4:]
+    if len(stm) != 1 or not isinstance(stm[0], ast.For):
+        raise TieBroken("%s:%d: %s: unexpected statements in the evaluation-point loop" % (rel, loops[0].lineno, fn.name))
+    outer = stm[0]
+    trial_range = "range(number_of_quad_points * n_support_elements)"
+    vec_name = "tmp1" if any("tmp1 = _np.zeros" in ast.unparse(s) for s in body) else "tmp"
+    comps = [None, None, None]
+    if ast.unparse(outer.iter) == "range(kernel_dimension)" and ast.unparse(outer.target) == "dim":
+        ob = outer.body
+        if len(ob) != 3 or ast.unparse(ob[0]) != "point_result = 0" or \
+                ast.unparse(ob[2]) != "result[dim, point_index] = point_result" or not isinstance(ob[1], ast.For) or \
+                ast.unparse(ob[1].iter) != trial_range or ast.unparse(ob[1].target) != "trial_index":
+            raise TieBroken("%s:%d: %s: component loop form" % (rel, outer.lineno, fn.name))
+        inner = list(ob[1].body)
+        if has_dist and ast.unparse(inner[0]) == "ldist = dist[trial_index]":
+            inner = inner[1:]
+        if len(inner) != 1 or not (isinstance(inner[0], ast.AugAssign) and isinstance(inner[0].op, ast.Add) and
+                                   ast.unparse(inner[0].target) == "point_result"):
+            raise TieBroken("%s:%d: %s: accumulation statement form" % (rel, ob[1].lineno, fn.name))
+        for dim in range(3):
+            cx = _CExpr(rel, fn.name, has_dist, vec_name, dim)
+            comps[dim] = cx.ev(inner[0].value)
+        src_exprs = [(inner[0].value, dim) for dim in range(3)]
+    elif ast.unparse(outer.iter) == trial_range and ast.unparse(outer.target) == "trial_index":
+        inner = list(outer.body)
+        if has_dist and ast.unparse(inner[0]) == "ldist = dist[trial_index]":
+            inner = inner[1:]
+        cx = _CExpr(rel, fn.name, has_dist, vec_name, None)
+        if not (len(inner) == 4 and isinstance(inner[0], ast.Assign) and ast.unparse(inner[0].targets[0]) == "val"):
+            raise TieBroken("%s:%d: %s: expected val = ... and three cross-product lines" % (rel, outer.lineno, fn.name))
+        cx.locals["val"] = cx.ev(inner[0].value)
+        if not isinstance(cx.locals["val"], list):
+            raise TieBroken("%s:%d: %s: val is not a vector" % (rel, outer.lineno, fn.name))
+        for s in inner[1:]:
+            if not (isinstance(s, ast.AugAssign) and isinstance(s.op, ast.Add) and isinstance(s.target, ast.Subscript) and
+                    ast.unparse(s.target.value) == "result"):
+                raise TieBroken("%s:%d: %s: cross-product line form" % (rel, s.lineno, fn.name))
+            els = s.target.slice.elts
+            if ast.unparse(els[1]) != "point_index" or not isinstance(els[0], ast.Constant) or comps[els[0].value] is not None:
+                raise TieBroken("%s:%d: %s: result index" % (rel, s.lineno, fn.name))
+            comps[els[0].value] = cx.ev(s.value)
+        src_exprs = None
+    else:
+        raise TieBroken("%s:%d: %s: loop structure" % (rel, outer.lineno, fn.name))
+    if any(c is None or isinstance(c, list) for c in comps):
+        raise TieBroken("%s:%d: %s: not all three components produced" % (rel, fn.lineno, fn.name))
+    # self-check of the complex arithmetic: evaluate the source expression with Python complex numbers
+    if src_exprs is not None:
+        import cmath
+        import random
+        rnd = random.Random(7)
+        for node, dim in src_exprs:
+            vals = {k: rnd.uniform(-1, 1) for k in MARGS}
+            dvec = [vals["x%d" % i] - vals["y%d" % i] for i in range(3)]
+            env = {"kernel_values": {0: complex(vals["Gre"], vals["Gim"])}, "trial_index": 0, "dim": dim,
+                   "wavenumber": complex(vals["p0"], vals["p1"]), "ldist": sum(c * c for c in dvec) ** 0.5,
+                   "tmp2": {0: complex(vals["qr"], vals["qi"])},
+                   vec_name: {(i, 0): complex(vals["v%dr" % i], vals["v%di" % i]) for i in range(3)},
+                   "diff": {(i, 0): dvec[i] for i in range(3)}, "test_point": {i: vals["x%d" % i] for i in range(3)}}
+            want_v = eval(compile(ast.Expression(node), "<integrand>", "eval"), {"__builtins__": {}}, env)
+            got = complex(_ir_eval(comps[dim][0], vals), _ir_eval(comps[dim][1], vals))
+            if abs(want_v - got) > 1e-12 * (1 + abs(want_v)):
+                raise TieBroken("%s:%d: %s: complex translation self-check failed" % (rel, node.lineno, fn.name))
+    return comps
+
+
+def _ir_eval(e, env):
+    import math
+    k = e[0]
+    if k == "var":
+        return env[e[1]]
+    if k == "num":
+        return e[1] / e[2]
+    if k == "neg":
+        return -_ir_eval(e[1], env)
+    if k == "fn":
+        return getattr(math, e[1])(_ir_eval(e[2], env))
+    a, b = _ir_eval(e[1], env), _ir_eval(e[2], env)
+    return {"add": a + b, "sub": a - b, "mul": a * b, "div": a / b if k == "div" else 0}[k]
+
+
+def maxwell_integrands(ctx):
+    """Emit gen/MaxwellIntegrands.v: for the four Maxwell potential / far-field assemblers the contribution of one
+    quadrature point to one evaluation point as a function of x (evaluation point), y (quadrature point), the kernel
+    value G, the accumulated vector density v (tmp1/tmp), the accumulated divergence density q (tmp2) and k = p0 + i p1."""
+    path, tree, funcs = _parse(ctx, NUMBA_SRC)
+    out = ["(* generated by translators/py_kernels.py (maxwell_integrands) from %s -- do not edit *)" % NUMBA_SRC,
+           "From Coq Require Import Reals.", "Open Scope R_scope.", ""]
+    res = {}
+    for name in MAXWELL_FUNCS:
+        if name not in funcs:
+            raise TieBroken("%s: %s not found" % (NUMBA_SRC, name))
+        comps = _maxwell_one(NUMBA_SRC, funcs[name])
+        res[name] = comps
+        out.append("(* %s:%d *)" % (NUMBA_SRC, funcs[name].lineno))
+        for c, (r, i) in enumerate(comps):
+            out.append(_defn("%s_integrand_%d_re" % (name, c), MARGS, r))
+            out.append(_defn("%s_integrand_%d_im" % (name, c), MARGS, i))
+        out.append("")
+    tabs, modes = selection_tables(ctx)
+    pot = tabs.get("assembly_function_potential", {})
+    want = {"maxwell_electric_field": "maxwell_efield_potential", "maxwell_magnetic_field": "maxwell_mfield_potential",
+            "maxwell_electric_far_field": "maxwell_efield_far_field", "maxwell_magnetic_far_field": "maxwell_mfield_far_field"}
+    for k, v in want.items():
+        if pot.get(k) != v:
+            raise TieBroken("%s: assembly_function_potential[%s] is %s" % (NUMBA_SRC, k, pot.get(k)))
+    ctx.write_gen("MaxwellIntegrands.v", "\n".join(out) + "\n")
     return res
